@@ -30,6 +30,10 @@ Wra = z3.Function('Wra', R2, R2, R2)
 Wdec = z3.Function('Wdec', R2, R2, R2)
 Vx = z3.Function('Vx', R2, R2, R2)
 Vy = z3.Function('Vy', R2, R2, R2)
+WraCore = z3.Function('WraCore', R2, R2, R2)
+WdecCore = z3.Function('WdecCore', R2, R2, R2)
+VxCore = z3.Function('VxCore', R2, R2, R2)
+VyCore = z3.Function('VyCore', R2, R2, R2)
 
 
 class UFWcs:
@@ -47,6 +51,20 @@ class UFWcs:
         self.calls.append(('w2p', ra, dec, origin, ra_dec_order))
         a, d = core._toreal(core.lift(ra)), core._toreal(core.lift(dec))
         return [[SN(Vx(a, d) + origin), SN(Vy(a, d) + origin)]]
+
+    # astropy's wcs_* methods apply the core transformation only (no SIP / distortion-table corrections): in general a
+    # DIFFERENT function from the full all_* transformation
+    def wcs_pix2world(self, pix, origin, ra_dec_order=False):
+        (X, Y), = pix
+        self.calls.append(('p2w-core', X, Y, origin, ra_dec_order))
+        x0, y0 = core._toreal(core.lift(X)) - origin, core._toreal(core.lift(Y)) - origin
+        return [[SN(WraCore(x0, y0)), SN(WdecCore(x0, y0))]]
+
+    def wcs_world2pix(self, pos, origin, ra_dec_order=False):
+        (ra, dec), = pos
+        self.calls.append(('w2p-core', ra, dec, origin, ra_dec_order))
+        a, d = core._toreal(core.lift(ra)), core._toreal(core.lift(dec))
+        return [[SN(VxCore(a, d) + origin), SN(VyCore(a, d) + origin)]]
 
 
 def h_two_helpers(wh):
@@ -342,6 +360,28 @@ def real_oracle(seed=0, n=40):
             got_e = helper.pix2sky_ellipse(pixel, sx, sy, th)
             if any(abs(float(g) - float(w_)) > 1e-9 for g, w_ in zip(got_v, ref_v)) or any(abs(float(g) - float(w_)) > 1e-9 for g, w_ in zip(got_e, ref_e)):
                 return True, 'integer-pixel-input', 'pix2sky_vec/pix2sky_ellipse at pixel (%d, %d) given as %s: %s / %s, given as floats: %s / %s' % (ri, ci, label, [float(g) for g in got_v], [float(g) for g in got_e], [float(g) for g in ref_v], [float(g) for g in ref_e])
+    # a header with SIP distortion terms: the helper answers with the full FITS WCS (astropy all_*), not the core transformation
+    import warnings
+    hdr = fits.Header()
+    hdr['NAXIS'] = 2
+    hdr['NAXIS1'] = hdr['NAXIS2'] = 400
+    hdr['CTYPE1'], hdr['CTYPE2'] = 'RA---TAN-SIP', 'DEC--TAN-SIP'
+    hdr['CRVAL1'], hdr['CRVAL2'] = 80.0, -25.0
+    hdr['CRPIX1'] = hdr['CRPIX2'] = 200.0
+    hdr['CDELT1'], hdr['CDELT2'] = -2.0 / 3600, 2.0 / 3600
+    hdr['A_ORDER'] = hdr['B_ORDER'] = 2
+    hdr['A_2_0'], hdr['A_0_2'], hdr['B_2_0'], hdr['B_1_1'] = 4e-5, -3e-5, 5e-5, 2e-5
+    hdr['BMAJ'], hdr['BMIN'], hdr['BPA'] = 8.0 / 3600, 8.0 / 3600, 0.0
+    with warnings.catch_warnings():
+        warnings.simplefilter('ignore')
+        helper = wh.WCSHelper.from_header(hdr)
+        w = WCS(hdr, naxis=2)
+        for (r0, c0) in ((200.0, 200.0), (40.0, 45.0), (350.0, 60.0)):
+            ra, dec = helper.pix2sky((r0, c0))
+            ref = w.all_pix2world([[c0, r0]], 1)[0]
+            back = helper.sky2pix((float(ref[0]), float(ref[1])))
+            if abs(ra - ref[0]) > 1e-8 or abs(dec - ref[1]) > 1e-8 or abs(back[0] - r0) > 1e-3 or abs(back[1] - c0) > 1e-3:
+                return True, 'distorted-wcs', 'TAN-SIP header: pix2sky((%.0f, %.0f)) = (%r, %r), FITS WCS %s; sky2pix of that position = %s' % (r0, c0, ra, dec, list(ref), list(back))
     # wide field, near-circular ellipses away from the reference pixel: sky -> pixel -> sky returns the ellipse
     for it in range(12):
         hdr = fits.Header()
